@@ -119,6 +119,61 @@ class SymBool:
         raise Unsupported("SymBool.__index__")
 
 
+class SymFloat:
+    """opaque result of real-number arithmetic on symbolic integers (progress percentages in log lines
+    and the like): it can be combined with numbers and formatted; any DECISION on it is unsupported.
+    A division by a symbolic zero raises ZeroDivisionError on its own path, as Python does."""
+
+    def _same(self, *a):
+        return SymFloat()
+
+    __add__ = __radd__ = __sub__ = __rsub__ = __mul__ = __rmul__ = __neg__ = __pos__ = __abs__ = _same
+    __pow__ = __rpow__ = _same
+
+    def __truediv__(self, o):
+        _zero_check(o)
+        return SymFloat()
+
+    __floordiv__ = __mod__ = __truediv__
+
+    def __rtruediv__(self, o):
+        raise Unsupported("division by a symbolic real number")
+
+    def __round__(self, n=None):
+        return SymFloat()
+
+    def __format__(self, spec):
+        return "<sym-real>"
+
+    def __repr__(self):
+        return "<sym-real>"
+
+    __str__ = __repr__
+
+    def __bool__(self):
+        raise Unsupported("decision on a symbolic real number")
+
+    def _cmp(self, o):
+        raise Unsupported("comparison of a symbolic real number")
+
+    __lt__ = __le__ = __gt__ = __ge__ = __eq__ = __ne__ = _cmp
+    __hash__ = None
+
+    def __int__(self):
+        raise Unsupported("int() of a symbolic real number")
+
+    __float__ = __index__ = __int__
+
+
+def _zero_check(divisor):
+    """Python raises ZeroDivisionError for a zero divisor: fork on it"""
+    if isinstance(divisor, (SymInt, SymBool)):
+        if bool(SymBool(_z(divisor) == 0)):
+            raise ZeroDivisionError("division by zero")
+    elif isinstance(divisor, (int, float)) and divisor == 0:
+        raise ZeroDivisionError("division by zero")
+
+
 class SymInt:
     __slots__ = ("e",)
 
@@ -157,17 +212,31 @@ class SymInt:
     def __mul__(self, o):
         if isinstance(o, SymInt):
             raise Unsupported("symbolic * symbolic")
+        if isinstance(o, (float, SymFloat)):
+            return SymFloat()
         return self._bin(o, lambda a, b: a * b)
 
     def __rmul__(self, o):
+        if isinstance(o, (float, SymFloat)):
+            return SymFloat()
         return self._bin(o, lambda a, b: a * b, True)
 
+    def __truediv__(self, o):
+        _zero_check(o)
+        return SymFloat()
+
+    def __rtruediv__(self, o):
+        _zero_check(self)
+        return SymFloat()
+
     def __floordiv__(self, o):
+        _zero_check(o)
         if isinstance(o, (SymInt, SymBool)) or not isinstance(o, int) or o <= 0:
             raise Unsupported("floordiv by non-constant or non-positive divisor")
         return SymInt(self.e / z3.IntVal(o))  # z3 Int div == floor for positive divisor
 
     def __mod__(self, o):
+        _zero_check(o)
         if isinstance(o, (SymInt, SymBool)) or not isinstance(o, int) or o <= 0:
             raise Unsupported("mod by non-constant or non-positive divisor")
         return SymInt(self.e % z3.IntVal(o))
